@@ -56,8 +56,10 @@ theorem coord_opposite (cs : CS) (hcs : cs.ok) :
     exact h
 
 /-- one voxel step along matrix axis `a` moves the coordinate by exactly one voxel size along the
-Cartesian axis that the axis map assigns to `a` (sign by reversal) and not at all along the others. -/
-theorem coord_step (cs : CS) (v : List Rat) (a : Nat) (ha : a < v.length) :
+Cartesian axis that the axis map assigns to `a` (sign by reversal) and not at all along the others.
+(`cs.ok` is the guard under which the code computes a voxel size at all: a zero extent raises ZeroDivisionError in
+`Image.voxel_size`, whereas ℚ totalises x / 0 = 0; the algebra itself does not need it.) -/
+theorem coord_step (cs : CS) (_hcs : cs.ok) (v : List Rat) (a : Nat) (ha : a < v.length) :
     ∃ am, axisMap cs.dim = .ok am ∧
       (do let c1 ← cs.coordinate (stepAt v a); let c0 ← cs.coordinate v
           pure (List.zipWith (· - ·) c1 c0)) =
@@ -277,12 +279,15 @@ theorem check_equal_symm_of_symm (close : Rat → Rat → Bool) (hs : ∀ x y, c
 theorem npclose_not_symmetric :
     npClose 1000 (10000100001 / 10000000) = true ∧ npClose (10000100001 / 10000000) 1000 = false := npClose_not_symm
 
-/-- HISTORY INDEPENDENCE: whatever happened to ONE image object before — conversions requested any number of times
-(`touch`), `reset_origin()`, assignments of `origin` / `dimensions`, in any order and number — the coordinate system
-it hands out afterwards is the one of its CURRENT fields: the geometry stays well formed, so every theorem of this
-file applies to it; in particular voxel zero maps to the current origin and voxel centres round-trip.
-(A coordinate system cached across a change of the origin violates exactly this.) -/
-theorem coordinatesystem_tracks_state (cs cs' : CS) (hcs : cs.ok) (ops : List GeomOp)
+/-- WELL-FORMEDNESS IS PRESERVED BY IN-PLACE OPERATIONS: after any sequence of `reset_origin()` and assignments of
+`origin` / `dimensions` (under the stated guards) the image's fields still form a well-formed geometry of the same
+dimension and shape, so every theorem of this file applies to the CURRENT fields (voxel zero ↦ current origin, centres
+round-trip). NOTE what this does NOT say: the model's state is just the fields and `touch` is the identity — as in the
+code, where the `coordinatesystem` property builds a fresh `CoordinateSystem(self)` on every access — so a cached / stale
+coordinate system cannot even be expressed here. That the implementation hands out the coordinate system of the current
+fields after such histories is OBSERVED: `hist` correspondence (dyadic geometries) and the oracle run on images with
+in-place histories (both streams). -/
+theorem inplace_ops_preserve_wellformedness (cs cs' : CS) (hcs : cs.ok) (ops : List GeomOp)
     (hops : ∀ op ∈ ops, op.okFor cs.dim) (h : cs.applyOps ops = .ok cs') :
     cs'.ok ∧ cs'.dim = cs.dim ∧ cs'.shape = cs.shape ∧
       cs'.coordinate (List.replicate cs'.dim.toNat 0) = .ok cs'.origin ∧
